@@ -678,6 +678,58 @@ class Scan:
         block(list(g.node.body), TRUE)
         return out
 
+    def routed_verdict(self, total: Formula) -> str | None:
+        """An opaque atom of the guard that mentions a variable into which a verdict of the exclusion predicate was stored in a way
+        the formulas do not follow (container, several assignments, loop variable): the guard may be there, but unseen."""
+        from core.guards import atoms_of
+        import re as _re
+
+        for a in sorted(atoms_of(total)):
+            if ":" not in a or a in {x[1] for x in _CANON}:
+                continue
+            qual, text = a.split(":", 1)
+            g = next((f for f in self.U if f.qualname == qual), None)
+            if g is None:
+                continue
+            tainted = self.verdict_names(g)
+            if set(_re.findall(r"[A-Za-z_][A-Za-z_0-9]*", text)) & tainted:
+                return text
+        return None
+
+    def bears_verdict(self, g: FuncInfo, call: ast.Call, depth: int = 0) -> bool:
+        """Does the result of this repo helper call depend on a verdict of the exclusion predicate (the helper, or one it calls, asks it)?"""
+        cs = self.callees(g, call) or self.any_callees(g, call)
+        if len(cs) != 1 or depth > 3:
+            return False
+        h = cs[0]
+        key = ("bears", h.fq)
+        if key not in self._ret_cache:
+            self._ret_cache[key] = False
+            self._ret_cache[key] = any(isinstance(n, ast.Call) and (self.is_pred(h, n) or self.bears_verdict(h, n, depth + 1)) for n in own_nodes(h.node))
+        return self._ret_cache[key]
+
+    def verdict_names(self, g: FuncInfo) -> set[str]:
+        key = ("verdict", g.fq)
+        if key in self._ret_cache:
+            return self._ret_cache[key]
+        fx = self.facts(g)
+        tainted: set[str] = set()
+        for _round in range(3):
+            for name, bs in fx.bind.items():
+                for b in bs:
+                    e = b[1]
+                    if not isinstance(e, ast.AST):
+                        continue
+                    for n in ast.walk(e):
+                        if (isinstance(n, ast.Call) and (self.is_pred(g, n) or self.bears_verdict(g, n))) or (isinstance(n, ast.Name) and n.id in tainted):
+                            single_bool = len(bs) == 1 and b[0] == "val" and name not in fx.params
+                            if not single_bool or not isinstance(e, (ast.Call, ast.Compare, ast.BoolOp, ast.UnaryOp, ast.Name, ast.IfExp, ast.NamedExpr)):
+                                tainted.add(name)
+                            elif isinstance(e, ast.Name):
+                                tainted.add(name)
+        self._ret_cache[key] = tainted
+        return tainted
+
     # ------------------------------------------------------------------ interprocedural guard
     def totals(self, g: FuncInfo, node: ast.AST, R: frozenset | None, depth: int = 0, env: dict | None = None) -> list[Formula]:
         local = self.guard(g, node, R, env)
@@ -930,6 +982,7 @@ def run(repo: Repo, res: Result, rule: str, anchors: Anchors | None = None) -> i
         kinds[ev.kind] = kinds.get(ev.kind, 0) + 1
         n += 1
         ok, why = True, ""
+        routed = None
         for R in roots:
             sc.derived_gate = []
             for total in sc.totals(g, ev.node, R):
@@ -937,16 +990,24 @@ def run(repo: Repo, res: Result, rule: str, anchors: Anchors | None = None) -> i
                     continue
                 is_dir_event = ev.kind == "descend" or implies(total, ISDIR, CONSTRAINTS)
                 if not implies(total, f_not(EXCL), CONSTRAINTS):
+                    hidden = sc.routed_verdict(total)
+                    if hidden and not sc.derived_gate:
+                        routed = hidden
+                        continue
                     ok = False
                     gate = f"; the exclusion test is applied to something else than the path itself ({'; '.join(sorted(set(sc.derived_gate))[:2])})" if sc.derived_gate else ""
                     why = f"{ev.what} although no exclusion test on `{'/'.join(sorted(R))}` rejected it first{gate}: " + ("the children of an excluded directory are still scanned" if ev.kind == "descend" else "an excluded directory is registered as a module" if is_dir_event else "an excluded file still contributes a module / imports")
                     break
-                if not is_dir_event and not implies(total, PY, CONSTRAINTS):
+                # file events: whenever the path is a file, it must be a python source
+                if ev.kind != "descend" and not implies(f_and([total, ISFILE]), PY, CONSTRAINTS) and not implies(total, ISDIR, CONSTRAINTS):
                     ok = False
                     why = f"{ev.what} without the test that the file's suffix is '.py': files that are no python sources are read / parsed"
                     break
             if not ok:
                 break
+        if ok and routed:
+            res.undecide(rule, key, f"the verdict of the exclusion test reaches this point through `{routed}`, which the analysis cannot follow: no verdict on whether it guards the {ev.kind}", where(g, ev.node))
+            continue
         res.add(rule, key, ok, (f"{ev.what} only after the exclusion test on its own path" + ("" if ev.kind == "descend" else " (and, for files, the '.py' test)")) if ok else why, where(g, ev.node), kind="dominance")
     res.extra.setdefault("c08_scan", {"entry": a.entry.fq, "filter_class": a.filter_cls.fq if a.filter_cls else None, "predicate": sorted(a.pred_names), "events": kinds, "functions": [f.qualname for f in a.universe]})
     for k in ("descend", "read", "parse", "register"):
